@@ -75,7 +75,13 @@ func projectTopErrors(err error, withText bool) []any {
 		for _, p := range se.JSONPointer() {
 			ptr = append(ptr, p)
 		}
-		m := T{"k": "schema", "field": se.SchemaField, "ptr": ptr}
+		// reading the pointer (and rendering the message) must not change it
+		_ = se.Error()
+		ptr2 := []any{}
+		for _, p := range se.JSONPointer() {
+			ptr2 = append(ptr2, p)
+		}
+		m := T{"k": "schema", "field": se.SchemaField, "ptr": ptr, "ptr2": ptr2}
 		if t, ok := goToTagged(se.Value); ok {
 			m["val"] = t
 		} else {
@@ -97,6 +103,56 @@ func projectTopErrors(err error, withText bool) []any {
 		one(err)
 	}
 	return res
+}
+
+// typedSlices converts homogeneous []any of strings / objects into []string / []map[string]any, recursively.
+func typedSlices(v any) (any, bool) {
+	switch x := v.(type) {
+	case []any:
+		changed := false
+		items := make([]any, len(x))
+		for i, e := range x {
+			var c bool
+			items[i], c = typedSlices(e)
+			changed = changed || c
+		}
+		if len(x) > 0 {
+			allStr, allObj := true, true
+			for _, e := range items {
+				if _, ok := e.(string); !ok {
+					allStr = false
+				}
+				if _, ok := e.(map[string]any); !ok {
+					allObj = false
+				}
+			}
+			if allStr {
+				out := make([]string, len(items))
+				for i, e := range items {
+					out[i] = e.(string)
+				}
+				return out, true
+			}
+			if allObj {
+				out := make([]map[string]any, len(items))
+				for i, e := range items {
+					out[i] = e.(map[string]any)
+				}
+				return out, true
+			}
+		}
+		return items, changed
+	case map[string]any:
+		changed := false
+		out := make(map[string]any, len(x))
+		for k, e := range x {
+			var c bool
+			out[k], c = typedSlices(e)
+			changed = changed || c
+		}
+		return out, changed
+	}
+	return v, false
 }
 
 func runMode(schema *openapi3.Schema, v any, opts ...openapi3.SchemaValidationOption) (string, error) {
@@ -148,6 +204,13 @@ func c12RunWith(c *Case, withText bool) []any {
 		r["mc"], _ = runMode(schema, v.num, openapi3.MultiErrors(), custom)
 		r["im"] = boolVerdict(func() bool { return schema.IsMatching(v.num) })
 		r["df"], _ = runMode(schema, v.f64)
+		// the request-side and response-side readings, in the three modes
+		r["qd"], _ = runMode(schema, v.num, openapi3.VisitAsRequest())
+		r["qf"], _ = runMode(schema, v.num, openapi3.VisitAsRequest(), openapi3.FailFast())
+		r["qm"], _ = runMode(schema, v.num, openapi3.VisitAsRequest(), openapi3.MultiErrors())
+		r["pd"], _ = runMode(schema, v.num, openapi3.VisitAsResponse())
+		r["pf"], _ = runMode(schema, v.num, openapi3.VisitAsResponse(), openapi3.FailFast())
+		r["pm"], _ = runMode(schema, v.num, openapi3.VisitAsResponse(), openapi3.MultiErrors())
 		if !withText && r["d"] == "A" && r["m"] == "A" {
 			// nothing to report for an accepted value
 		} else {
@@ -158,6 +221,27 @@ func c12RunWith(c *Case, withText bool) []any {
 			var fe error
 			_, fe = runMode(schema, v.num, openapi3.FailFast())
 			r["fe"] = projectTopErrors(fe, withText)
+			// a reason-only message customiser with schema error details left enabled
+			reasonOnly := openapi3.SetSchemaErrorMessageCustomizer(func(e *openapi3.SchemaError) string {
+				if e.Reason == "" {
+					return "schema error"
+				}
+				return e.Reason
+			})
+			openapi3.SchemaErrorDetailsDisabled = false
+			var ce, cme, te error
+			_, ce = runMode(schema, v.num, reasonOnly)
+			_, cme = runMode(schema, v.num, reasonOnly, openapi3.MultiErrors())
+			r["ce"] = projectTopErrors(ce, withText)
+			r["cme"] = projectTopErrors(cme, withText)
+			// the same value with typed Go slices ([]string, []map[string]any), as user code or a custom decoder may pass
+			if tv, changed := typedSlices(v.f64); changed {
+				_, te = runMode(schema, tv, reasonOnly)
+				r["te"] = projectTopErrors(te, withText)
+				_, te = runMode(schema, tv, reasonOnly, openapi3.MultiErrors())
+				r["tme"] = projectTopErrors(te, withText)
+			}
+			openapi3.SchemaErrorDetailsDisabled = true
 		}
 		rs = append(rs, r)
 	}
